@@ -195,9 +195,9 @@ class FakeSock(object):
         self.ep = ep
         ep.refs += 1
         self.closed = False
+        self.owner = world.sched.current.pid if world.sched.current is not None else 0
         self.fd = world.new_fd(self)
         self.timeout = None
-        self.owner = world.sched.current.pid if world.sched.current is not None else 0
         world.handles.append(self)
 
     def dup(self, pid):
@@ -206,6 +206,8 @@ class FakeSock(object):
         h.fd = self.fd
         self.ep.refs += 1
         self.world.handles.append(h)
+        if pid != self.owner:
+            self.world.fds[(pid, h.fd)] = h           # a forked child has its own descriptor table
         return h
 
     def _check(self):
@@ -392,6 +394,8 @@ class FakePoll(object):
 
     def __init__(self):
         self.reg = {}
+        cur = self.WORLD[0].sched.current if self.WORLD[0] is not None else None
+        self.pid = cur.pid if cur is not None else 0        # descriptor numbers are per process
 
     def register(self, fd, mode):
         self.reg[fd] = mode
@@ -404,7 +408,7 @@ class FakePoll(object):
         w = self.WORLD[0]
         out = []
         for fd in list(self.reg):
-            h = w.fds.get(fd)
+            h = w.fds.get((self.pid, fd))
             if h is None or h.closed:
                 out.append((fd, "n"))
                 continue
@@ -572,7 +576,7 @@ class World(object):
         fd = 10
         while fd in used:
             fd += 1
-        self.fds[fd] = h
+        self.fds[(h.owner, fd)] = h
         return fd
 
     def invoke(self, fn, args):
@@ -630,7 +634,7 @@ def wrapping_authenticator(sock):
         raise AuthenticationError("bad token")
     new = sock.dup(sock.owner)
     sock.detach()
-    sock.world.fds[new.fd] = new          # the descriptor number now belongs to the new object
+    sock.world.fds[(new.owner, new.fd)] = new          # the descriptor number now belongs to the new object
     return new, "user"
 
 
@@ -934,7 +938,7 @@ def tables_mentioning(sc, c):
                 sock = None
         if getattr(sock, "ep", None) is not None:
             return sock.ep
-        h = w.fds.get(fd)
+        h = w.fds.get((0, fd))
         return getattr(h, "ep", None)
     f2c = getattr(srv, "fd_to_conn", None)
     if f2c is not None and any(owner_ep(fd, conn) is ep for fd, conn in f2c.items()):
